@@ -659,6 +659,16 @@ class Exec:
             s.causes.append({'t': self.now, 'cause': 'ws-fail', 'step': len(self.actions),
                              'det': None})
 
+    def op_ws_soft_fail(self, a):
+        """The next write of the server on this session's WebSocket fails; the connection itself
+        stays usable (a transient fault)."""
+        s = self.sess(a['s'])
+        conn = self._sock(s, 'main')
+        if conn is None:
+            return
+        self.world.ws_fail_next_send(conn)
+        s.soft_faults = getattr(s, 'soft_faults', []) + [self.now]
+
     def op_pong(self, a):
         s = self.sess(a['s'])
         if s is None or self.sid_of(s) is None:
@@ -894,7 +904,8 @@ def server_payload(draw, s_ord, seq):
         return tag + draw(text_suffix())
     if kind == 'json':
         return draw(st.sampled_from([
-            {'tag': tag}, {'tag': tag, 'x': [1, 'a', None]}, [tag, 1], {'tag': tag, 'n': {'a': 1.5}}]))
+            {'tag': tag}, {'tag': tag, 'x': [1, 'a', None]}, [tag, 1], {'tag': tag, 'n': {'a': 1.5}},
+            {'tag': tag, 'half': '\ud83d'}]))       # (a lone surrogate: legal in JSON text)
     return tag.encode() + draw(st.binary(max_size=6))
 
 
@@ -904,7 +915,8 @@ def client_payload(draw, s_ord, seq):
     if kind == 'text':
         return tag + draw(text_suffix())
     if kind == 'json':
-        return draw(st.sampled_from([{'tag': tag}, {'tag': tag, 'x': [1, 'a', None]}, [tag, 2]]))
+        return draw(st.sampled_from([{'tag': tag}, {'tag': tag, 'x': [1, 'a', None]}, [tag, 2],
+                                     {'tag': tag, 'half': '\ud83d'}]))
     if kind == 'bytes':
         return tag.encode() + draw(st.binary(max_size=6))
     if kind == 'jsontext':
@@ -942,8 +954,8 @@ class Drawer:
         opts = [('open', W.get('open', 3) if len(ex.sessions) < self.profile.get('max_sessions', 3)
                  else 0)]
         if have:
-            for k in ('poll', 'post', 'upg_connect', 'ws_send', 'ws_close', 'ws_fail', 'pong',
-                      'app_send', 'app_burst', 'app_disconnect', 'api', 'vanish', 'request',
+            for k in ('poll', 'post', 'upg_connect', 'ws_send', 'ws_close', 'ws_fail',
+                      'ws_soft_fail', 'pong', 'app_send', 'app_burst', 'app_disconnect', 'api', 'vanish', 'request',
                       'probe_step'):
                 opts.append((k, W.get(k, 0)))
         opts += [('advance', W.get('advance', 2)), ('fault', W.get('fault', 0))]
@@ -1100,6 +1112,12 @@ class Drawer:
             if self.ex._sock(s, sock) is None:
                 return None
         return {'op': op, 's': i, 'sock': sock}
+
+    def a_ws_soft_fail(self):
+        i = self.session_index()
+        if self.ex.sessions[i].main_ws is None:
+            return None
+        return {'op': 'ws_soft_fail', 's': i}
 
     def a_ws_close(self):
         return self._sock_action('ws_close')
